@@ -638,8 +638,13 @@ func vc15RunInto(out *vc15Result, car *vc15Car, flush byte, ign []byte, skip int
 	case <-time.After(60 * time.Second):
 		res.timedOut = true
 	}
+	// Run must not return while a delivery is still in progress (its callers finalise their output right after)
+	inFlightAtReturn := !res.timedOut && inCallback.Load() != 0
 	mu.Lock()
 	defer mu.Unlock()
+	if inFlightAtReturn {
+		res.problem("run-returned-before-delivery-finished", "Run returned while a callback invocation was still running")
+	}
 	if !res.timedOut && !vc15GroupsEqual(res.groups, vc15Expected(car, flush, ign, skip)) {
 		// something is missing at the moment Run returned: give late callbacks a moment to show up
 		mu.Unlock()
